@@ -113,6 +113,9 @@ type Exec struct {
 	stubOrder   []*Term
 	fpErrN      int
 	crtN        int
+	prngByteN   int
+	snaps       []*heapSnap
+	wsets       []*heapSet
 }
 
 type cutSpec struct {
